@@ -10,7 +10,7 @@ use serde_json::json;
 pub fn meta() -> Meta {
     Meta {
         level: "exploration",
-        rule: "bounded derivations of the reference grammar: spines of k compound-statement contexts (17 contexts: every body of if/else/while/for/case/default/gate/def as block or single statement) around each of ~65 leaf statement templates, all sequences of n top-level statements, all expression trees with two (three) operators over 19 binary and 3 unary operators in 12 expression positions; each program printed with minimal, full and redundant parentheses and 9 uniform separator flavours (one with a non-ASCII line comment, one with CR LF, vertical tab and form feed) and parsed through both entry points; non-trivial = the program has a compound statement or an operator expression; outcomes = distinct tree shapes",
+        rule: "bounded derivations of the reference grammar: spines of k compound-statement contexts (17 contexts: every body of if/else/while/for/case/default/gate/def as block or single statement) around each of ~65 leaf statement templates, all sequences of n top-level statements, all expression trees with two (three) operators over 19 binary and 3 unary operators in 12 expression positions; each program printed with minimal, full and redundant parentheses and 10 uniform separator flavours (among them a non-ASCII line comment, CR LF with vertical tab and form feed, a block comment ending in **/) and parsed through both entry points; non-trivial = the program has a compound statement or an operator expression; outcomes = distinct tree shapes",
         assumptions: vec![
             "the reference grammar of the model is the one listed in DESIGN.md 4.4 (official-grammar forms of the constructs the statement names); arrays, extern, defcal/cal, durationof, old-style registers and built-in calls are covered by a fixed list of 74 statement texts in 5 positions and 6 separator flavours instead; arrow measurement and box statements, which the parser does not accept, are outside the claim",
             "a number and its unit are written adjacently or separated by blanks, never by other trivia",
